@@ -124,6 +124,23 @@ def install():
     _set(rpyc.lib, "random", frandom)
     # identity on the wire
     _set(rpyc.lib, "id", det_id)
+    # generic sweep: any other module global of an rpyc module that *is* one of the real primitives (a changed tree may import
+    # RLock, Event, Thread, the select module, ... somewhere new) is replaced as well, so no real lock or clock slips in
+    import threading as _rt
+    import time as _rtime
+    import socket as _rsock
+    import queue as _rq
+    import random as _rrandom
+    real_to_fake = [(_rt.Lock, sync.Lock), (_rt.RLock, sync.RLock), (_rt.Condition, sync.Condition), (_rt.Event, sync.Event),
+                    (_rt.Thread, sync.Thread), (_rq.Queue, sync.Queue), (_rt, fthreading), (_rtime, ftime), (_rsock, fsocket), (_rq, fqueue),
+                    (_rrandom, frandom), (_rtime.time, ftime.time), (_rtime.sleep, ftime.sleep), (_rsock.socket, net.SockObj)]
+    for mname, mod in sorted(sys.modules.items()):
+        if not (mname == "rpyc" or mname.startswith("rpyc.")) or mod is None:
+            continue
+        for gname, gval in list(vars(mod).items()):
+            for real, fake in real_to_fake:
+                if gval is real:
+                    _set(mod, gname, fake)
     # finalizers that run while a task is being unwound at run end raise SimKilled: not worth a stderr report
     old_hook = sys.unraisablehook
 
